@@ -69,6 +69,22 @@ def z2_attrs(F, S, names):
                     S.ok("Z2", "%s #[serde(%s)]" % (name, it))
                 else:
                     S.bad("Z2", "serde-attr", "%s:%s" % (name, it.split("=")[0].strip()), "container attribute #[serde(%s)] on %s can change what is serialized/restored" % (it, name), loc(s["span"]))
+        wire_names = {}
+        for f in s.get("fields", []):
+            # the name a field has on the wire: `rename = "x"` only in its symmetric form, and no two fields may share a name
+            wn = f["name"]
+            for a in f["attrs"]:
+                for it in (serde_attr_items(a) or []):
+                    m_ = re.match(r'^rename\s*=\s*"([^"]*)"$', it.strip())
+                    if m_:
+                        wn = m_.group(1)
+                    elif it.strip().startswith(("rename", "alias")):
+                        S.bad("Z2", "serde-attr", "%s.%s:%s" % (name, f["name"], "rename"),
+                              "field attribute #[serde(%s)] on %s.%s: separate serialize / deserialize names or aliases can make two fields trade places on a round trip" % (it, name, f["name"]), loc(f["span"]))
+            if wn in wire_names:
+                S.bad("Z2", "serde-attr", "%s.%s:%s" % (name, f["name"], "rename-collision"),
+                      "%s.%s and %s.%s are both serialized under the name \"%s\"" % (name, f["name"], name, wire_names[wn], wn), loc(f["span"]))
+            wire_names[wn] = f["name"]
         for f in s.get("fields", []):
             bad = False
             for a in f["attrs"]:
